@@ -28,6 +28,12 @@ FORBIDDEN_KEY_TRAITS = [
     ("Copy", "Copy"), ("Default", "Default"), ("Clone", "Clone"),
 ]
 
+# traits through which the decoded footer / payload of a not-yet-verified token could be reached
+SEALED_TOKEN_LEAK_TRAITS = [
+    ("Debug", "std::fmt::Debug"), ("LowerHex", "std::fmt::LowerHex"), ("AsRefBytes", "AsRef<[u8]>"), ("AsRefFooter", "AsRef<Vec<u8>>"),
+    ("BorrowFooter", "std::borrow::Borrow<Vec<u8>>"), ("DerefFooter", "std::ops::Deref<Target = Vec<u8>>"), ("IntoFooter", "Clone + Into<Vec<u8>>"),
+]
+
 def vty(b):
     return f"{b[1]}::core::{b[2]}"
 
@@ -131,6 +137,10 @@ def catalogue():
             add("sealed-token-field", f"read .encoded_footer of a sealed {b[0]} {purpose} token", t, "let _ = &t.encoded_footer;", False)
             add("sealed-token-field", f"read .claims of a sealed {b[0]} {purpose} token", t, "let _ = &t.claims;", False)
             add("sealed-unverified-footer", f"unverified_footer() of a sealed {b[0]} {purpose} token", t, "let _ = t.unverified_footer();", True)
+            # ... nor through a formatting / conversion trait (only Display / Serialize of the token text itself)
+            add("sealed-token-debug", f"format a sealed {b[0]} {purpose} token with Debug", t, "let _ = format!(\"{:?}\", t);", False)
+            for tname, bound in SEALED_TOKEN_LEAK_TRAITS:
+                add(f"sealed-token-trait-{tname}", f"sealed {b[0]} {purpose} token used where `{bound}` is required", t, f"fn needs<T: {bound}>(_: &T) {{}} needs(t);", False)
             # a sealed token of one purpose is not one of the other
             other = "Public" if purpose == "Local" else "Local"
             add("token-purpose-confusion", f"pass a {purpose} token where a {other} token is expected", f"t: SealedToken<{vty(b)}, {purpose}, M>", f"let _: SealedToken<{vty(b)}, {other}, M> = t;", False)
@@ -209,6 +219,14 @@ def main():
     if args and args[0] == "--replay":
         replay = json.load(open(args[1]))["case"]
     progs = catalogue()
+    # `--only <class-prefix> --as <Cxx>`: run a slice of the catalogue on behalf of another property
+    only = args[args.index("--only") + 1] if "--only" in args else None
+    as_prop = args[args.index("--as") + 1] if "--as" in args else "C18"
+    sub = f"-{as_prop.lower()}" if as_prop != "C18" else ""
+    if replay is not None and replay.get("as"):
+        as_prop = replay["as"]; only = replay.get("only"); sub = f"-{as_prop.lower()}"
+    if only:
+        progs = [p for p in progs if p.cls.startswith(only)]
     if replay is not None:
         progs = [p for p in progs if p.cls == replay["class"] and p.desc == replay["description"]]
         if not progs:
@@ -223,12 +241,13 @@ def main():
             n, w = known_hits.get(sig, (0, known[sig])); known_hits[sig] = (n + 1, w); return
         if sum(1 for v in violations if v[1] == sig) >= 3:
             return
-        violations.append((write_replay("C18", sig, what, case), sig, what))
+        case = dict(case, **({"as": as_prop, "only": only} if as_prop != "C18" else {}))
+        violations.append((write_replay(as_prop, sig.replace("C18/", as_prop + "/", 1), what, case), sig.replace("C18/", as_prop + "/", 1), what))
 
     samples = []
     by_id = {p.pid: p for p in progs}
     # crate 1: everything predicted to compile
-    d, mark = emit("accept", "c18-accept", acc)
+    d, mark = emit("accept" + sub, "c18-accept", acc)
     rc, errors, dep, stderr = check(d)
     if dep or (rc != 0 and not errors):
         print(f"INCONCLUSIVE cargo check failed outside the generated programs: {dep or stderr[-400:]}"); sys.exit(2)
@@ -243,7 +262,7 @@ def main():
         p = by_id[pid]
         report(f"C18/{p.cls}/correct-program-rejected", f"well-typed program does not compile: {p.desc}: `{p.stmt}` -> {errs[0][0]} {errs[0][1][:120]}", {"class": p.cls, "description": p.desc, "stmt": p.stmt, "params": p.params, "expect": "compiles"})
     # crate 2: everything predicted to be rejected
-    d, mark = emit("reject", "c18-reject", rej)
+    d, mark = emit("reject" + sub, "c18-reject", rej)
     rc, errors, dep, stderr = check(d)
     if dep:
         print(f"INCONCLUSIVE cargo check failed outside the generated programs: {dep}"); sys.exit(2)
@@ -269,10 +288,29 @@ def main():
     classes = {}
     for p in progs:
         classes[f"{p.cls}:{'accept' if p.expect else 'reject'}"] = classes.get(f"{p.cls}:{'accept' if p.expect else 'reject'}", 0) + 1
+    if as_prop != "C18":
+        # merge into the other property's evidence file (written just before by its own run)
+        pth = os.path.join(VERIF, "evidence", f"{as_prop}.json")
+        try:
+            e = json.load(open(pth))
+            c = e["coverage"]
+            c["compile_probes"] = {"engine": "generated programs decided by rustc (progs/c18.py --only %s)" % only, "programs": len(progs), "predicted_reject": len(rej), "predicted_compile": len(acc),
+                                   "classes": sorted(set(p.cls for p in progs)), "harness_errors": harness}
+            c["evaluations"] = c.get("evaluations", 0) + len(progs)
+            c["distinct_nontrivial"] = c.get("distinct_nontrivial", 0) + len(rej)
+            e["violations"] = e.get("violations", 0) + len(violations)
+            json.dump(e, open(pth, "w"), indent=1)
+        except Exception as ex:
+            print("note: evidence not merged:", ex)
+        if harness and not violations:
+            for h in harness[:10]:
+                print(f"INCONCLUSIVE harness error: {h}")
+            sys.exit(2)
+        finish(as_prop, tier, violations, known_hits, f"{as_prop} {tier} compile probes: {len(progs)} programs ({len(rej)} predicted rejected, {len(acc)} predicted to compile), {len(violations)} violation(s), {time.time()-t0:.1f}s")
     write_evidence("C18", tier, "exploration", {
         "evaluations": len(progs),
         "distinct_nontrivial": len(rej) + sum(1 for p in acc if p.cls in ("seal", "unseal", "wrap-pie", "seal-key", "unseal-key")),
-        "rule": "generated catalogue: product of (back-end crate of the key) x (back-end crate of the token) x purpose x key kind {Local, Public, Secret, PkePublic, PkeSecret} x operation {seal, unseal, sign/encrypt/verify/decrypt aliases (+_with_aad), wrap_pie (by kind of wrapped and wrapping key), password_wrap, seal-key, unseal-key, Display / to_string / Debug / serde / field access / AsRef / == on keys, every key kind against a list of trait bounds through which key material could leak or be compared implicitly (Display, ToString, Debug, LowerHex, Serialize, Hash, PartialEq, PartialOrd, AsRef<[u8]>, Borrow<[u8]>, Deref<Target=[u8]>, Copy, Default; Clone allowed), Display / to_string / serde on unsealed tokens, private fields of sealed tokens, purpose / kind / version coercions}; each program is one function whose marked statement carries the (mis)use; a type model written from the property text predicts compile / reject; rustc is the ground truth: every predicted-reject program must have an error on its marked line (codes E0277/E0308/E0599/E0616/E0609/E0369), every predicted-compile program (the well-typed twins) must compile. Non-trivial iff predicted reject, or a well-typed twin of a key/token operation; distinct by program text",
+        "rule": "generated catalogue: product of (back-end crate of the key) x (back-end crate of the token) x purpose x key kind {Local, Public, Secret, PkePublic, PkeSecret} x operation {seal, unseal, sign/encrypt/verify/decrypt aliases (+_with_aad), wrap_pie (by kind of wrapped and wrapping key), password_wrap, seal-key, unseal-key, Display / to_string / Debug / serde / field access / AsRef / == on keys, every key kind against a list of trait bounds through which key material could leak or be compared implicitly (Display, ToString, Debug, LowerHex, Serialize, Hash, PartialEq, PartialOrd, AsRef<[u8]>, Borrow<[u8]>, Deref<Target=[u8]>, Copy, Default; Clone allowed), Display / to_string / serde on unsealed tokens, private fields of sealed tokens, Debug and conversion traits on sealed tokens, purpose / kind / version coercions}; each program is one function whose marked statement carries the (mis)use; a type model written from the property text predicts compile / reject; rustc is the ground truth: every predicted-reject program must have an error on its marked line (codes E0277/E0308/E0599/E0616/E0609/E0369), every predicted-compile program (the well-typed twins) must compile. Non-trivial iff predicted reject, or a well-typed twin of a key/token operation; distinct by program text",
         "samples": samples,
         "class_histogram": classes,
         "programs": len(progs), "predicted_reject": len(rej), "predicted_compile": len(acc),
